@@ -5,6 +5,8 @@ import SkoolVerif.Proofs.LoadAccelCompose
 import SkoolVerif.Proofs.AccelWalkLemmas
 import SkoolVerif.Proofs.AccelWalkSound
 import SkoolVerif.Proofs.LoadAccelExamples
+import SkoolVerif.Proofs.LoadDecA
+import SkoolVerif.Proofs.LoadFfwd
 /-!
 C13 — simulated LOAD results do not depend on speed-up options or simulator choice.
 
@@ -226,6 +228,118 @@ theorem matchers_agree (get : Int → Int) (pc : Int) (a : Accel) (ha : a ∈ ac
   · cases h
   · simp only [Bool.and_eq_true, decide_eq_true_eq] at h
     exact sigMatch_agree get pc a h.1.1.2 h0 h1
+
+/-! ### derived from source: the `DEC A` hook
+
+`PyLoad.dec_a_func` is translated on every run from `LoadTracer.dec_a(...).func` (skoolkit/loadtracer.py) by
+translate/pyload2lean.py, `CSimH.Load.dec_a` from `dec_a` of c/csimulator.c by translate/cload2lean.py (C integer semantics
+explicit).  The hand model `decAHook` of the theorems above is proved equal to both, so `dec_a_jr_equiv`, `dec_a_jp_equiv`,
+`dec_a_hook_otherwise_plain` are statements about the code of both languages. -/
+
+/-- loadtracer.py's private tables as translated from the source are the hand-written ones (hence, by
+`tracer_tables_are_simulator_tables`, the simulator's). -/
+theorem loadtracer_tables_derived_from_source (c a : Int) :
+    PyLoad.Tbl.DEC c a = ltDEC c a ∧ PyLoad.Tbl.DEC0 a = ltDEC0 a ∧ PyLoad.Tbl.INC0 a = ltINC0 a :=
+  ⟨LoadDerived.py_DEC c a, LoadDerived.py_DEC0 a, LoadDerived.py_INC0 a⟩
+
+/-- The closure `LoadTracer.dec_a(dec_a_jr, dec_a_jp).func` as translated from loadtracer.py: for EVERY machine state and
+every option value it leaves the state `decAHook` describes, and increments exactly the counter (`dec_a_jr_hits`,
+`dec_a_jp_hits`, `dec_a_misses`, none) of the branch `decAKind` names. -/
+theorem python_dec_a_derived_from_source {μ : Type} [MemLike μ] (cfg : Cfg) (jr jp h0 h1 h2 : Int) (s : St μ) :
+    let r := PyLoad.dec_a_func cfg jr jp h0 h1 h2 s
+    r.1 = decAHook (decide (jr ≠ 0)) (decide (jp ≠ 0)) s ∧
+    (r.2.dec_a_jr_hits, r.2.dec_a_jp_hits, r.2.dec_a_misses)
+      = LoadDerived.pyCount h0 h1 h2 (decAKind (decide (jr ≠ 0)) (decide (jp ≠ 0)) s) :=
+  ⟨LoadDerived.py_dec_a_state cfg jr jp h0 h1 h2 s, LoadDerived.py_dec_a_counters cfg jr jp h0 h1 h2 s⟩
+
+/-- `dec_a` of c/csimulator.c as translated (args[0..2] the hit/miss counters, args[3], args[4] the two options): on every
+state in the range invariant whose clock is below 2^63 it is `decAHook` on the machine state and bumps the counter of the
+branch taken (as a C `int`). -/
+theorem c_dec_a_derived_from_source {μ : Type} [MemLike μ] [CellMem μ] (cfg : Cfg) (args : CSimH.Load.DecAArgs) (s : St μ)
+    (h : RInv s) (ht : s.t < 9223372036854775808) :
+    CSimH.Load.dec_a cfg args s =
+      (decAHook (decide (args.a3 ≠ 0)) (decide (args.a4 ≠ 0)) s,
+       LoadDerived.cCount args (decAKind (decide (args.a3 ≠ 0)) (decide (args.a4 ≠ 0)) s)) :=
+  LoadDerived.c_dec_a cfg args s h ht
+
+/-- C against Python, translation against translation: with the same options (`args[3] = accel_dec_a & 1`,
+`args[4] = accel_dec_a & 2`, as both sources set them) the two hooks leave the same machine state. -/
+theorem c_dec_a_eq_python {μ : Type} [MemLike μ] [CellMem μ] (cfg : Cfg) (accelDecA h0 h1 h2 : Int) (args : CSimH.Load.DecAArgs)
+    (h3 : args.a3 = PyInt.land accelDecA 1) (h4 : args.a4 = PyInt.land accelDecA 2) (s : St μ) (h : RInv s)
+    (ht : s.t < 9223372036854775808) :
+    (CSimH.Load.dec_a cfg args s).1 = (PyLoad.dec_a_func cfg (PyInt.land accelDecA 1) (PyInt.land accelDecA 2) h0 h1 h2 s).1 := by
+  rw [LoadDerived.c_dec_a cfg args s h ht, LoadDerived.py_dec_a_state, h3, h4]
+
+/-- …and so the translated Python closure itself, entered with `DEC A: JR NZ,$-1` at PC and interrupts disabled, leaves exactly
+the state of the generated Z80 model after `2·A` instructions (`dec_a_jr_equiv` transported to the code). -/
+theorem python_dec_a_jr_is_2A_steps {μ : Type} [MemLike μ] (cfg : Cfg) (jr jp h0 h1 h2 : Int) (s : St μ) (hr : RegsOk s.reg)
+    (hpc : 0 ≤ s.pc ∧ s.pc < 65536) (hm : mget s.mem s.pc = 0x3D)
+    (hk : decAKind (decide (jr ≠ 0)) (decide (jp ≠ 0)) s = .jr) :
+    (PyLoad.dec_a_func cfg jr jp h0 h1 h2 s).1 = runN cfg (2 * (aval s).toNat) s := by
+  rw [LoadDerived.py_dec_a_state]
+  exact dec_a_jr_equiv cfg _ _ s hr hpc hm hk
+
+/-- the same for the C handler and the `JP NZ` shape -/
+theorem c_dec_a_jp_is_2A_steps {μ : Type} [MemLike μ] [CellMem μ] (cfg : Cfg) (args : CSimH.Load.DecAArgs) (s : St μ)
+    (h : RInv s) (ht : s.t < 9223372036854775808) (hm : mget s.mem s.pc = 0x3D)
+    (hk : decAKind (decide (args.a3 ≠ 0)) (decide (args.a4 ≠ 0)) s = .jp) :
+    (CSimH.Load.dec_a cfg args s).1 = runN cfg (2 * (aval s).toNat) s := by
+  rw [LoadDerived.c_dec_a cfg args s h ht]
+  exact dec_a_jp_equiv cfg _ _ s h.regs h.pc hm hk
+
+/-! ### derived from source: the tape-sampling fast-forward of the port handler
+
+`PyLoad.read_port_ffwd` is translated on every run from the statements `LoadTracer._read_port.func` executes for the matched
+accelerator (translate/pyload2lean.py; the search loop around them is checked by exact text), `CSimH.Load.read_port_ffwd` from
+the block `if (match) { … }` of `read_port` in c/csimulator.c (translate/cload2lean.py; everything else in `read_port` is
+checked by exact text).  Both are proved to be the hand model `accelerate`, so `tsl_accelerate_is_iteration` (and with it
+`tsl_ffwd_equiv_*`, `tsl_loops_spec_*`, `tsl_real_loop_equals_iteration`) speaks about the code of both languages. -/
+
+/-- The Python fast-forward as translated: for EVERY machine state, tracer state and table entry whose counter register is not R
+(slot 15; every entry counts in B..L), it returns what `accelerate` returns — same registers, clock, edge index and number of
+skipped iterations, `IndexError` (`none`) exactly where the model has `none` — touches nothing else and bumps `acc.hits`. -/
+theorem python_read_port_derived_from_source {μ : Type} [MemLike μ] (cfg : Cfg) (a : Accel) (ts : TS) (index hits : Int) (s : St μ)
+    (hc : a.counter ≠ 15) :
+    (PyLoad.read_port_ffwd cfg a ts index 0 hits s).map (fun r => (r.1, r.2.ts, r.2.index, r.2.loops, r.2.hits))
+      = (accelerate a ts s.reg s.t index).map (fun x => ({ s with reg := x.1, t := x.2.1 }, ts, x.2.2.1, x.2.2.2, hits + 1)) :=
+  LoadDerived.py_ffwd cfg a ts index hits s hc
+
+/-- The C fast-forward as translated, C integer semantics explicit: on states in the range invariant, for table entries
+representable in `tsl_accelerator` (`AccRep`), with clock, next edge and edge index below 2^62 and the next edge less than
+2^31 T-states ahead (`int delta = (int)(next_edge - TIME)`), it computes `accelerate` too (never the `IndexError` case),
+touches nothing else, clears `tsl_miss` and bumps `acc->hits`. -/
+theorem c_read_port_derived_from_source {μ : Type} [MemLike μ] [CellMem μ] (cfg : Cfg) (a : Accel) (ts : TS) (pc : Int)
+    (l : CSimH.Load.FfwdLocals) (s : St μ) (h : RInv s) (ht : s.t < 4611686018427387904) (ha : LoadDerived.AccRep a)
+    (hE : 0 ≤ ts.nextEdge ∧ ts.nextEdge < 4611686018427387904) (hd : ts.nextEdge - s.t < 2147483648)
+    (hi : 0 ≤ l.index ∧ l.index < 4611686018427387904) (hl : l.loops = 0) :
+    let r := CSimH.Load.read_port_ffwd cfg a ts pc l s
+    accelerate a ts s.reg s.t l.index = some (r.1.reg, r.1.t, r.2.index, r.2.loops) ∧ r.1 = { s with reg := r.1.reg, t := r.1.t }
+      ∧ r.2.tsl_miss = 0 ∧ r.2.hits = CInt.u32 (l.hits + 1) :=
+  LoadDerived.c_ffwd cfg a ts pc l s h ht ha hE hd hi hl
+
+/-- C against Python, translation against translation: under the hypotheses of the two theorems above the two fast-forwards
+leave the same registers, clock, edge index and iteration count. -/
+theorem read_port_ffwd_c_eq_python {μ : Type} [MemLike μ] [CellMem μ] (cfg : Cfg) (a : Accel) (ts : TS) (pc hits : Int)
+    (l : CSimH.Load.FfwdLocals) (s : St μ) (h : RInv s) (ht : s.t < 4611686018427387904) (ha : LoadDerived.AccRep a)
+    (hE : 0 ≤ ts.nextEdge ∧ ts.nextEdge < 4611686018427387904) (hd : ts.nextEdge - s.t < 2147483648)
+    (hi : 0 ≤ l.index ∧ l.index < 4611686018427387904) (hl : l.loops = 0) :
+    let r := CSimH.Load.read_port_ffwd cfg a ts pc l s
+    (PyLoad.read_port_ffwd cfg a ts l.index 0 hits s).map (fun p => (p.1, p.2.index, p.2.loops)) = some (r.1, r.2.index, r.2.loops) := by
+  intro r
+  have hc := LoadDerived.c_ffwd cfg a ts pc l s h ht ha hE hd hi hl
+  have hp := LoadDerived.py_ffwd cfg a ts l.index hits s (by have := ha.counter; omega)
+  simp only [] at hc
+  have e : (PyLoad.read_port_ffwd cfg a ts l.index 0 hits s).map (fun p => (p.1, p.2.index, p.2.loops))
+      = ((PyLoad.read_port_ffwd cfg a ts l.index 0 hits s).map (fun r => (r.1, r.2.ts, r.2.index, r.2.loops, r.2.hits))).map
+          (fun x => (x.1, x.2.2.1, x.2.2.2.1)) := by
+    rw [Option.map_map]; rfl
+  rw [e, hp, hc.1]
+  simp only [Option.map_some, LoadDerived.ffwdResult]
+  rw [← hc.2.1]
+
+/-- every entry of the ACCELERATORS table (as the source has it now) is representable in the C struct and names registers B..L -/
+theorem accelerators_representable : ∀ a ∈ accelerators, LoadDerived.accRepB a = true := by
+  decide +kernel
 
 /-! ### the hypotheses are satisfiable / concrete values -/
 
